@@ -369,6 +369,7 @@ def gen_nufft_formulas(ctx=None):
     out.append("/-- stage order, arguments handed to interpolate/gridding (`width=width, param=beta`), the beta\n"
                "    formula and `os_shape` of `nufft` and `nufft_adjoint` were checked syntactically -/\n"
                "def nufftPipelineChecked : Bool := true\n")
+    _gen_toeplitz(tree, out, E)
     out.append("end SigpyVerif.Gen\n")
     return "\n".join(out)
 
@@ -668,6 +669,323 @@ def gen_interp_wrappers(ctx=None):
     out.append(_wrapper(tree, "gridding", "gridding", ["input", "coord", "shape", "kernel", "width", "param"], "_gridding"))
     out.append("end SigpyVerif.Gen\n")
     return "\n".join(out)
+# ---- toeplitz_psf / NUFFT._normal_linop ---------------------------------------------------------
+def _bind_call(call, fn, method=False):
+    """resolve the positional and keyword arguments of `call` against the signature of the def `fn`
+    -> {parameter name: argument node}; parameters left to their default are absent.
+    (`f(a, b, w)` and `f(a, b, width=w)` bind identically: the check is on what is passed, not how.)"""
+    if not isinstance(call, ast.Call):
+        raise U("not a call: %s" % ast.unparse(call))
+    a = fn.args
+    if a.vararg or a.kwarg or a.kwonlyargs or a.posonlyargs:
+        raise U("signature of %s" % fn.name)
+    params = [x.arg for x in a.args]
+    if method:
+        if not params or params[0] != "self":
+            raise U("%s is not a method" % fn.name)
+        params = params[1:]
+    if any(isinstance(x, ast.Starred) for x in call.args) or any(k.arg is None for k in call.keywords):
+        raise U("star arguments in %s" % ast.unparse(call))
+    if len(call.args) > len(params):
+        raise U("too many arguments in %s" % ast.unparse(call))
+    bound = dict(zip(params, call.args))
+    for k in call.keywords:
+        if k.arg not in params or k.arg in bound:
+            raise U("keyword %s in %s" % (k.arg, ast.unparse(call)))
+        bound[k.arg] = k.value
+    ndef = len(a.defaults)
+    required = params[:len(params) - ndef] if ndef else params
+    for r in required:
+        if r not in bound:
+            raise U("missing argument %s in %s" % (r, ast.unparse(call)))
+    return bound
+
+
+def _bound_src(call, fn, method=False):
+    return {k: ast.unparse(v) for k, v in _bind_call(call, fn, method).items()}
+
+
+def _defaults(fn):
+    a = fn.args
+    names = [x.arg for x in a.args]
+    return {n: ast.unparse(d) for n, d in zip(names[len(names) - len(a.defaults):], a.defaults)}
+
+
+def _axes_of(node, what):
+    """value of an axes expression built from `range`, `tuple`, `list`, int constants and `ndim` only, for
+    ndim = 1, 2, 3: it must denote exactly the last `ndim` axes {-1, ..., -ndim} (in any order, once each)."""
+    for n in ast.walk(node):
+        if isinstance(n, ast.Name):
+            if n.id not in ("range", "tuple", "list", "ndim", "reversed", "sorted"):
+                raise U("%s: name %s" % (what, n.id))
+        elif isinstance(n, ast.Constant):
+            if not isinstance(n.value, int) or isinstance(n.value, bool):
+                raise U("%s: constant %r" % (what, n.value))
+        elif not isinstance(n, (ast.Call, ast.BinOp, ast.UnaryOp, ast.Load, ast.Add, ast.Sub, ast.Mult, ast.USub,
+                                ast.UAdd, ast.Tuple, ast.List)):
+            raise U("%s: %s" % (what, type(n).__name__))
+    code = compile(ast.Expression(body=copy.deepcopy(node)), "<axes>", "eval")
+    for nd in (1, 2, 3, 4):
+        try:
+            v = list(eval(code, {"__builtins__": {}}, {"range": range, "tuple": tuple, "list": list, "ndim": nd,
+                                                         "reversed": reversed, "sorted": sorted}))
+        except Exception as e:  # noqa
+            raise U("%s: cannot evaluate %s (%r)" % (what, ast.unparse(node), e))
+        if sorted(v) != list(range(-nd, 0)):
+            raise U("%s: %s is %s for ndim=%d, not the last ndim axes" % (what, ast.unparse(node), v, nd))
+
+
+def _with_body(fn):
+    """statements of the function after the docstring, looking through `with <device>:` blocks"""
+    out = []
+
+    def walk(stmts):
+        for s in stmts:
+            if isinstance(s, ast.Expr) and isinstance(s.value, ast.Constant) and isinstance(s.value.value, str):
+                continue
+            if isinstance(s, ast.With):
+                walk(s.body)
+            else:
+                out.append(s)
+    walk(fn.body)
+    return out
+
+
+def _assigns(stmts, fn_name):
+    """{name: value node} for simple `name = value` statements; a name assigned twice is kept as a list in order"""
+    d = {}
+    for s in stmts:
+        if isinstance(s, ast.Assign) and len(s.targets) == 1 and isinstance(s.targets[0], ast.Name):
+            d.setdefault(s.targets[0].id, []).append(s.value)
+    return d
+
+
+def _gen_toeplitz(tree, out, E):
+    """`toeplitz_psf` (sigpy/fourier.py) and `NUFFT._normal_linop` (sigpy/linop.py)."""
+    fn = T.find_function(tree, "toeplitz_psf")
+    f_nufft = T.find_function(tree, "nufft")
+    f_adj = T.find_function(tree, "nufft_adjoint")
+    f_fft = T.find_function(tree, "fft")
+    f_osh = T.find_function(tree, "_get_oversamp_shape")
+    f_sc = T.find_function(tree, "_scale_coord")
+    if [a.arg for a in fn.args.args] != ["coord", "shape", "oversamp", "width"]:
+        raise U("toeplitz_psf signature: %s" % [a.arg for a in fn.args.args])
+    if [a.arg for a in f_nufft.args.args] != ["input", "coord", "oversamp", "width"]:
+        raise U("nufft signature")
+    if [a.arg for a in f_adj.args.args] != ["input", "coord", "oshape", "oversamp", "width"]:
+        raise U("nufft_adjoint signature")
+    # the three entry points must agree on what `oversamp` / `width` mean when they are left out
+    dn, da, dt = _defaults(f_nufft), _defaults(f_adj), _defaults(fn)
+    if not (dn.get("oversamp") == da.get("oversamp") == dt.get("oversamp") and dn.get("width") == da.get("width") == dt.get("width")
+            and dn.get("oversamp") is not None and dn.get("width") is not None):
+        raise U("default oversamp/width of nufft, nufft_adjoint, toeplitz_psf differ: %s %s %s" % (dn, da, dt))
+    stmts = _with_body(fn)
+    # every statement must be one of the forms consumed below (nothing else may touch the pipeline)
+    asg = _assigns(stmts, fn.name)
+    others = [s for s in stmts if not (isinstance(s, ast.Assign) and len(s.targets) == 1 and isinstance(s.targets[0], ast.Name))]
+    allowed = {"xp", "ndim", "new_shape", "new_coord", "idx", "d", "psf", "fft_axes"}
+    if set(asg) - allowed:
+        raise U("toeplitz_psf assigns %s" % sorted(set(asg) - allowed))
+    for k in ("ndim", "new_shape", "new_coord", "idx", "d"):
+        if len(asg.get(k, [])) != 1:
+            raise U("toeplitz_psf: expected exactly one assignment to %s" % k)
+    if len(asg.get("fft_axes", [])) > 1:
+        raise U("toeplitz_psf: fft_axes assigned twice")
+    if ast.unparse(asg["ndim"][0]) != "coord.shape[-1]":
+        raise U("toeplitz_psf ndim: %s" % ast.unparse(asg["ndim"][0]))
+    # order of the statements that matter: names are used only after they are final
+    order = [ast.unparse(s.targets[0]) if isinstance(s, ast.Assign) else type(s).__name__ for s in stmts]
+    order = [o for o in order if o not in ("xp", "fft_axes")]
+    if order != ["ndim", "new_shape", "new_coord", "idx", "For", "d", "d[tuple(idx)]", "psf", "psf", "psf", "Return"]:
+        raise U("toeplitz_psf statement sequence changed: %s" % order)
+    if len(others) != 3:
+        raise U("toeplitz_psf: unexpected statements")
+    # --- embedding grid: new_shape = _get_oversamp_shape(shape, ndim, C1), new_coord = _scale_coord(coord, new_shape, C2)
+    b = _bind_call(asg["new_shape"][0], f_osh)
+    if not (isinstance(asg["new_shape"][0].func, ast.Name) and asg["new_shape"][0].func.id == "_get_oversamp_shape"):
+        raise U("toeplitz_psf new_shape: %s" % ast.unparse(asg["new_shape"][0]))
+    if ast.unparse(b["shape"]) != "shape" or ast.unparse(b["ndim"]) != "ndim":
+        raise U("toeplitz_psf new_shape arguments: %s" % ast.unparse(asg["new_shape"][0]))
+    s, t = E({}).tr(b["oversamp"])      # a numeric constant expression (no free names): the embedding factor
+    c1 = T._cast(s, t, T.RAT)
+    b = _bind_call(asg["new_coord"][0], f_sc)
+    if not (isinstance(asg["new_coord"][0].func, ast.Name) and asg["new_coord"][0].func.id == "_scale_coord"):
+        raise U("toeplitz_psf new_coord: %s" % ast.unparse(asg["new_coord"][0]))
+    if ast.unparse(b["coord"]) != "coord" or ast.unparse(b["shape"]) != "new_shape":
+        raise U("toeplitz_psf new_coord arguments: %s" % ast.unparse(asg["new_coord"][0]))
+    s, t = E({}).tr(b["oversamp"])
+    c2 = T._cast(s, t, T.RAT)
+    out.append("/-- generated from `toeplitz_psf`: `new_shape = _get_oversamp_shape(shape, ndim, <this>)` -/\n"
+               "def toepShapeOversamp : Rat := %s\n" % c1)
+    out.append("/-- generated from `toeplitz_psf`: `new_coord = _scale_coord(coord, new_shape, <this>)` -/\n"
+               "def toepCoordOversamp : Rat := %s\n" % c2)
+    out.append("/-- generated from `toeplitz_psf`: length of one axis of the embedding grid `new_shape` -/\n"
+               "def toepEmbedLen (n : Int) : Int := oversampLen toepShapeOversamp n\n")
+    out.append("/-- generated from `toeplitz_psf`: `new_coord` for an image axis of length `n` (`_scale_coord` applied to\n"
+               "    the EMBEDDING shape with the constant above) -/\n"
+               "def toepScaleCoord (n : Int) (c : Rat) : Rat := scaleCoord toepCoordOversamp (toepEmbedLen n) c\n")
+    # --- the delta: idx = [slice(None)] * len(new_shape); for k in <last ndim axes>: idx[k] = f(new_shape[k]);
+    #     d = xp.zeros(new_shape, dtype=complex); d[tuple(idx)] = 1
+    if ast.unparse(asg["idx"][0]) != "[slice(None)] * len(new_shape)":
+        raise U("toeplitz_psf idx init: %s" % ast.unparse(asg["idx"][0]))
+    loop = [s for s in others if isinstance(s, ast.For)]
+    if len(loop) != 1 or loop[0].orelse or not isinstance(loop[0].target, ast.Name) or loop[0].target.id != "k":
+        raise U("toeplitz_psf delta loop")
+    _axes_of(loop[0].iter, "toeplitz_psf delta loop")
+    if len(loop[0].body) != 1:
+        raise U("toeplitz_psf delta loop body")
+    st = loop[0].body[0]
+    if not (isinstance(st, ast.Assign) and len(st.targets) == 1 and ast.unparse(st.targets[0]) == "idx[k]"):
+        raise U("toeplitz_psf delta loop body: %s" % ast.unparse(st))
+    sub = _Subst([(lambda n: _is_sub(n, "new_shape", "k"), "m")])
+    s, t = E({"m": T.INT}).tr(sub.visit(copy.deepcopy(st.value)))
+    if t != T.INT:
+        raise U("toeplitz_psf delta index is not an int")
+    out.append("/-- generated from `toeplitz_psf`: `idx[k] = <this>` with `m = new_shape[k]` (position of the unit sample) -/\n"
+               "def toepDeltaIdx (m : Int) : Int := %s\n" % s)
+    dz = asg["d"][0]
+    if not (isinstance(dz, ast.Call) and ast.unparse(dz.func) in ("xp.zeros", "np.zeros") and len(dz.args) == 1
+            and ast.unparse(dz.args[0]) == "new_shape" and [k.arg for k in dz.keywords] == ["dtype"]
+            and ast.unparse(dz.keywords[0].value) in ("xp.complex64", "xp.complex128", "np.complex64", "np.complex128", "complex")):
+        raise U("toeplitz_psf d: %s" % ast.unparse(dz))
+    setd = [s for s in others if isinstance(s, ast.Assign)]
+    if len(setd) != 1 or ast.unparse(setd[0]) != "d[tuple(idx)] = 1":
+        raise U("toeplitz_psf delta assignment: %s" % [ast.unparse(s) for s in setd])
+    # --- psf = nufft(d, new_coord, oversamp, width); psf = nufft_adjoint(psf, new_coord, d.shape, oversamp, width)
+    p1, p2, p3 = asg["psf"]
+    for call, name in ((p1, "nufft"), (p2, "nufft_adjoint")):
+        if not (isinstance(call, ast.Call) and isinstance(call.func, ast.Name) and call.func.id == name):
+            raise U("toeplitz_psf: expected a call of %s, found %s" % (name, ast.unparse(call)))
+    got = _bound_src(p1, f_nufft)
+    if got != {"input": "d", "coord": "new_coord", "oversamp": "oversamp", "width": "width"}:
+        raise U("toeplitz_psf calls nufft with %s (the caller's oversamp and width must be passed on)" % got)
+    got = _bound_src(p2, f_adj)
+    if got.get("oshape") == "new_shape":
+        got["oshape"] = "d.shape"   # d = zeros(new_shape): the same shape
+    if got != {"input": "psf", "coord": "new_coord", "oshape": "d.shape", "oversamp": "oversamp", "width": "width"}:
+        raise U("toeplitz_psf calls nufft_adjoint with %s (the caller's oversamp and width must be passed on)" % got)
+    # --- psf = fft(psf, axes=fft_axes, norm=None) * 2 ** ndim
+    if not (isinstance(p3, ast.BinOp) and isinstance(p3.op, ast.Mult)):
+        raise U("toeplitz_psf final statement: %s" % ast.unparse(p3))
+    call, fac = (p3.left, p3.right) if isinstance(p3.left, ast.Call) else (p3.right, p3.left)
+    if not (isinstance(call, ast.Call) and isinstance(call.func, ast.Name) and call.func.id == "fft"):
+        raise U("toeplitz_psf final statement: %s" % ast.unparse(p3))
+    bf = _bind_call(call, f_fft)
+    src = {k: ast.unparse(v) for k, v in bf.items()}
+    if src.pop("center", "True") != "True" or src.pop("oshape", "None") != "None":
+        raise U("toeplitz_psf final fft arguments: %s" % ast.unparse(call))
+    if set(src) != {"input", "axes", "norm"} or src["input"] != "psf" or src["norm"] != "None":
+        raise U("toeplitz_psf final fft arguments: %s (must be the unnormalised centred transform of psf)" % ast.unparse(call))
+    ax = bf["axes"]
+    if isinstance(ax, ast.Name) and ax.id == "fft_axes":
+        if len(asg.get("fft_axes", [])) != 1:
+            raise U("toeplitz_psf fft_axes")
+        ax = asg["fft_axes"][0]
+    _axes_of(ax, "toeplitz_psf fft axes")
+    g = _GExpr(ints=[], scalars=[], nats=["ndim"])
+    fm = g.tr(fac)
+    gen_hdr = "{α : Type} [Add α] [Sub α] [Mul α] [Div α] [IntCast α] [HPow α Nat α]"
+    out.append("/-- generated from `toeplitz_psf`: the factor multiplied onto `fft(psf, axes=<last ndim axes>, norm=None)` -/\n"
+               "def toepFinalMul %s (ndim : Nat) : α := %s\n" % (gen_hdr, fm))
+    ret = [s for s in others if isinstance(s, ast.Return)]
+    if len(ret) != 1 or ast.unparse(ret[0]) != "return psf":
+        raise U("toeplitz_psf return")
+    out.append("/-- `toeplitz_psf`: statement order, the unit sample `d[idx] = 1` on a complex zero array of the embedding shape,\n"
+               "    `nufft(d, new_coord, oversamp, width)` then `nufft_adjoint(psf, new_coord, d.shape, oversamp, width)` with the\n"
+               "    CALLER's oversamp / width, and the final unnormalised centred `fft` over the last `ndim` axes were checked\n"
+               "    syntactically (arguments resolved against the signatures, positional or keyword) -/\n"
+               "def toeplitzPsfChecked : Bool := true\n")
+
+    # --- sigpy/linop.py: NUFFT stores and passes on oversamp / width; _normal_linop builds R^H F^H P F R
+    ltree = _parse("sigpy/linop.py")
+    init = T.find_function(ltree, "NUFFT.__init__")
+    if [a.arg for a in init.args.args] != ["self", "ishape", "coord", "oversamp", "width", "toeplitz"]:
+        raise U("NUFFT.__init__ signature")
+    di = _defaults(init)
+    if di.get("oversamp") != dn["oversamp"] or di.get("width") != dn["width"]:
+        raise U("NUFFT.__init__ defaults %s differ from nufft's %s" % (di, dn))
+    stored = {}
+    for s in ast.walk(init):
+        if isinstance(s, ast.Assign) and len(s.targets) == 1 and isinstance(s.targets[0], ast.Attribute) \
+                and isinstance(s.targets[0].value, ast.Name) and s.targets[0].value.id == "self":
+            stored.setdefault(s.targets[0].attr, []).append(ast.unparse(s.value))
+    for k in ("coord", "oversamp", "width", "toeplitz"):
+        if stored.get(k) != [k]:
+            raise U("NUFFT.__init__ stores self.%s = %s" % (k, stored.get(k)))
+    for cls, meth, target, fsig, want in (
+            ("NUFFT", "_apply", "nufft", f_nufft, {"input": "input", "coord": "coord", "oversamp": "self.oversamp", "width": "self.width"}),
+            ("NUFFTAdjoint", "_apply", "nufft_adjoint", f_adj,
+             {"input": "input", "coord": "coord", "oshape": "self.oshape", "oversamp": "self.oversamp", "width": "self.width"})):
+        m = T.find_function(ltree, "%s.%s" % (cls, meth))
+        calls = [n for n in ast.walk(m) if isinstance(n, ast.Call) and ast.unparse(n.func) == "fourier." + target]
+        if len(calls) != 1:
+            raise U("%s.%s: expected one call of fourier.%s" % (cls, meth, target))
+        got = _bound_src(calls[0], fsig)
+        if got != want:
+            raise U("%s.%s calls fourier.%s with %s" % (cls, meth, target, got))
+        if "backend.to_device(self.coord, device)" != ast.unparse(T.find_assign(m, "coord")):
+            raise U("%s.%s coord" % (cls, meth))
+    nl = T.find_function(ltree, "NUFFT._normal_linop")
+    st = _with_body(nl)
+    if not st or not isinstance(st[0], ast.If) or st[0].orelse:
+        raise U("NUFFT._normal_linop: first statement is not the toeplitz switch")
+    test = ast.unparse(st[0].test)
+    if test not in ("self.toeplitz is False", "not self.toeplitz", "self.toeplitz == False"):
+        raise U("NUFFT._normal_linop toeplitz switch: %s" % test)
+    if [ast.unparse(s) for s in st[0].body] != ["return self.H * self"]:
+        raise U("NUFFT._normal_linop non-toeplitz branch: %s" % [ast.unparse(s) for s in st[0].body])
+    rest = st[1:]
+    la = _assigns(rest, "NUFFT._normal_linop")
+    if [type(s).__name__ for s in rest] != ["Assign"] * (len(rest) - 1) + ["Return"] or any(len(v) != 1 for v in la.values()) \
+            or set(la) != {"ndim", "psf", "fft_axes", "R", "F", "P", "T"} or len(rest) != 8:
+        raise U("NUFFT._normal_linop statements: %s" % [ast.unparse(s)[:40] for s in rest])
+    order = [s.targets[0].id for s in rest[:-1]]
+    pos = {n: i for i, n in enumerate(order)}
+    if not (pos["ndim"] < pos["fft_axes"] and pos["psf"] < min(pos["R"], pos["F"], pos["P"]) and pos["fft_axes"] < pos["F"]
+            and max(pos["R"], pos["F"], pos["P"]) < pos["T"]):
+        raise U("NUFFT._normal_linop statement order: %s" % order)
+    if ast.unparse(la["ndim"][0]) != "self.coord.shape[-1]":
+        raise U("NUFFT._normal_linop ndim")
+    call = la["psf"][0]
+    if not (isinstance(call, ast.Call) and ast.unparse(call.func) == "fourier.toeplitz_psf"):
+        raise U("NUFFT._normal_linop psf: %s" % ast.unparse(call))
+    got = _bound_src(call, fn)
+    if got != {"coord": "self.coord", "shape": "self.ishape", "oversamp": "self.oversamp", "width": "self.width"}:
+        raise U("NUFFT._normal_linop calls fourier.toeplitz_psf with %s (the operator's own oversamp and width must be passed)" % got)
+    _axes_of(la["fft_axes"][0], "NUFFT._normal_linop fft_axes")
+    for var, cls, want in (("R", "Resize", {"oshape": "psf.shape", "ishape": "self.ishape"}),
+                           ("F", "FFT", {"shape": "psf.shape", "axes": "fft_axes"}),
+                           ("P", "Multiply", {"ishape": "psf.shape", "mult": "psf"})):
+        c = la[var][0]
+        if not (isinstance(c, ast.Call) and isinstance(c.func, ast.Name) and c.func.id == cls):
+            raise U("NUFFT._normal_linop %s: %s" % (var, ast.unparse(c)))
+        got = _bound_src(c, T.find_function(ltree, cls + ".__init__"), method=True)
+        if got.get("center") == "True":
+            del got["center"]
+        if got.get("conj") == "False":
+            del got["conj"]
+        if got != want:
+            raise U("NUFFT._normal_linop %s = %s(%s)" % (var, cls, got))
+    if ast.unparse(la["T"][0]) != "R.H * F.H * P * F * R":
+        raise U("NUFFT._normal_linop T = %s" % ast.unparse(la["T"][0]))
+    if ast.unparse(rest[-1]) != "return T":
+        raise U("NUFFT._normal_linop return")
+    # linop.FFT is the ORTHONORMAL centred transform: the 1/(embedding size) of the circulant diagonalisation comes from here
+    fa = T.find_function(ltree, "FFT._apply")
+    calls = [n for n in ast.walk(fa) if isinstance(n, ast.Call) and ast.unparse(n.func) == "fourier.fft"]
+    if len(calls) != 1:
+        raise U("FFT._apply")
+    got = _bound_src(calls[0], f_fft)
+    if got.pop("norm", _defaults(f_fft).get("norm")) != "'ortho'" or got != {"input": "input", "axes": "self.axes", "center": "self.center"}:
+        raise U("FFT._apply calls fourier.fft with %s" % got)
+    if _defaults(T.find_function(ltree, "FFT.__init__")).get("center") != "True":
+        raise U("FFT.__init__ center default")
+    out.append("/-- sigpy/linop.py: `NUFFT.__init__` stores `oversamp` / `width`; `NUFFT._apply` / `NUFFTAdjoint._apply` pass them to\n"
+               "    `fourier.nufft` / `fourier.nufft_adjoint`; `NUFFT._normal_linop` (toeplitz branch) calls\n"
+               "    `fourier.toeplitz_psf(self.coord, self.ishape, self.oversamp, self.width)` and returns `R.H * F.H * P * F * R` with\n"
+               "    `R = Resize(psf.shape, self.ishape)`, `F = FFT(psf.shape, axes=<last ndim axes>)` (orthonormal, centred),\n"
+               "    `P = Multiply(psf.shape, psf)` (checked syntactically, arguments resolved against the signatures) -/\n"
+               "def toeplitzNormalChecked : Bool := true\n")
 
 
 GENERATORS = {
